@@ -795,7 +795,523 @@ Proof.
   intros w Hw. unfold d'. cbn [d_verts]. apply nth_snth_other. auto.
 Qed.
 
-(* PRINT-ASSUMPTIONS *)
+
+(* ================================================================================================ *)
+(* PART 5.  insertion outside of the convex hull                                                     *)
+(* ================================================================================================ *)
+
+Module PH := ProofsHull.
+
+(* --- 5a. legalization leaves the hull alone: records of outer half-edges, and origins of their twins --- *)
+Definition HullKeep (d d' : dcel) : Prop :=
+  (forall x, x < length (d_hedges d) -> e_face d x = 0 -> half_edge d' x = half_edge d x) /\
+  (forall x, x < length (d_hedges d) -> e_face d (rev x) = 0 -> e_origin d' x = e_origin d x).
+
+Lemma HullKeep_refl : forall d, HullKeep d d.
+Proof. intros d. split; intros; reflexivity. Qed.
+
+Lemma HullKeep_trans : forall d1 d2 d3, StepRel d1 d2 -> HullKeep d1 d2 -> HullKeep d2 d3 -> HullKeep d1 d3.
+Proof.
+  intros d1 d2 d3 (_ & _ & L & _ & _ & F0 & _) (A1 & A2) (B1 & B2). split.
+  - intros x Hx Fx. rewrite B1; [apply A1; assumption|rewrite L; exact Hx|apply F0; exact Fx].
+  - intros x Hx Fx. rewrite B2; [apply A2; assumption|rewrite L; exact Hx|apply F0; exact Fx].
+Qed.
+
+Lemma flip_hull_keep : forall d e, DW d -> e < length (d_hedges d) -> inner d e -> inner d (rev e) ->
+  HullKeep d (fst (DcelOps.flip_cw d (as_undirected e))).
+Proof.
+  intros d e W He Ie It. unfold as_undirected. set (k := Nat.div2 e).
+  assert (Hk : k < Raw.num_undirected_edges d).
+  { unfold Raw.num_undirected_edges. pose proof (dw_even d W) as Ev.
+    destruct (div2_cases e) as [(E & _)|(E & _)]; fold k in E; lia. }
+  destruct (dw_double_lt d W k Hk) as (He0 & _).
+  assert (Pre : inner d (2 * k) /\ inner d (rev (2 * k))).
+  { destruct (div2_cases e) as [(E & R)|(E & R)]; fold k in E, R.
+    - rewrite <- E. auto.
+    - rewrite <- R. rewrite rev_rev. auto. }
+  destruct Pre as (Ie0 & It0).
+  pose proof (flip_cw_post d k W Hk Ie0 It0) as Post.
+  set (d1 := fst (DcelOps.flip_cw d k)) in *.
+  pose proof (dw_rev_lt d W _ He0) as Ht0.
+  destruct (dw_tri_facts d (2 * k) W He0 Ie0) as (_ & _ & _ & _ & _ & _ & A1 & A2 & _).
+  destruct (dw_tri_facts d (rev (2 * k)) W Ht0 It0) as (_ & _ & _ & _ & _ & _ & B1 & B2 & _).
+  unfold inner in Ie0, It0.
+  split.
+  - intros x Hx Fx. apply (fp_other d d1 (2 * k) Post). unfold flip_untouched.
+    repeat split; intro E; rewrite E in Fx; congruence.
+  - intros x Hx Fx. apply (flip_org_keep d d1 (2 * k) He0 Post).
+    + intro E. rewrite E in Fx. congruence.
+    + intro E. rewrite E, rev_rev in Fx. congruence.
+Qed.
+
+Lemma legalize_hull : forall pts fuel fully d stack b d' b',
+  DW d -> EdgesCcw pts d -> (forall e, In e stack -> e < length (d_hedges d)) ->
+  legalize pts fuel fully d stack b = Some (d', b') ->
+  DW d' /\ EdgesCcw pts d' /\ StepRel d d' /\ HullKeep d d'.
+Proof.
+  intros pts fuel fully. induction fuel as [|k IH]; intros d stack b d' b' W EC Rng Run.
+  - cbn [legalize] in Run. discriminate.
+  - cbn [legalize] in Run. destruct stack as [|e rest].
+    + injection Run as <- <-. split; [exact W|split; [exact EC|split; [apply StepRel_refl|apply HullKeep_refl]]].
+    + assert (He : e < length (d_hedges d)) by (apply Rng; left; reflexivity).
+      assert (Rng' : forall x, In x rest -> x < length (d_hedges d)) by (intros x Hx; apply Rng; right; exact Hx).
+      destruct (is_flagged d e) eqn:Fl; [apply (IH d rest b d' b' W EC Rng' Run)|].
+      destruct ((e_face d e =? 0) || (e_face d (e_rev e) =? 0)) eqn:Fc; [apply (IH d rest b d' b' W EC Rng' Run)|].
+      destruct (should_flip pts d e) eqn:SF; [|apply (IH d rest b d' b' W EC Rng' Run)].
+      apply orb_false_iff in Fc. destruct Fc as (Fc1 & Fc2).
+      apply Nat.eqb_neq in Fc1. apply Nat.eqb_neq in Fc2. unfold e_rev in *.
+      pose proof (dw_rev_lt d W e He) as Ht.
+      destruct (flip_step pts d e W EC He Fl Fc1 Fc2 SF) as (W1 & EC1 & R1).
+      pose proof (flip_hull_keep d e W He Fc1 Fc2) as K1.
+      set (d1 := fst (DcelOps.flip_cw d (as_undirected e))) in *.
+      assert (L1 : length (d_hedges d1) = length (d_hedges d)) by apply R1.
+      assert (Rng1 : forall x, In x (((if fully then [e_prev d e; e_next d e] else []) ++
+                                      [e_prev d (rev e); e_next d (rev e)]) ++ rest) -> x < length (d_hedges d1)).
+      { intros x Hx. rewrite L1.
+        pose proof (dw_prev_lt d W e He). pose proof (dw_next_lt d W e He).
+        pose proof (dw_prev_lt d W _ Ht). pose proof (dw_next_lt d W _ Ht).
+        apply in_app_or in Hx. destruct Hx as [Hx|Hx]; [|apply Rng'; exact Hx].
+        apply in_app_or in Hx. destruct Hx as [Hx|Hx].
+        - destruct fully; cbn [In] in Hx; [|tauto]. destruct Hx as [<-|[<-|[]]]; assumption.
+        - cbn [In] in Hx. destruct Hx as [<-|[<-|[]]]; assumption. }
+      destruct (IH d1 _ true d' b' W1 EC1 Rng1 Run) as (W' & EC' & R' & K').
+      split; [exact W'|split; [exact EC'|split]].
+      * apply (StepRel_trans d d1 d'); assumption.
+      * apply (HullKeep_trans d d1 d'); assumption.
+Qed.
+
+Lemma legalize_edge_hull : forall pts fuel d e fully d' b,
+  DW d -> EdgesCcw pts d -> e < length (d_hedges d) ->
+  legalize_edge pts fuel d e fully = Some (d', b) ->
+  DW d' /\ EdgesCcw pts d' /\ StepRel d d' /\ HullKeep d d'.
+Proof.
+  intros pts fuel d e fully d' b W EC He Run. unfold legalize_edge in Run.
+  apply (legalize_hull pts fuel fully d [e] false d' b W EC); [|exact Run].
+  intros x [<-|[]]. exact He.
+Qed.
+
+Lemma PH_DW : forall d, DW d -> PH.DW d.
+Proof. intros d W. apply PH.DWf_iff. apply DWf_DW. exact W. Qed.
+Lemma DW_PH : forall d, PH.DW d -> DW d.
+Proof. intros d W. apply DWf_DW. apply PH.DWf_iff. exact W. Qed.
+
+(* decide the conditions of the closed forms of ProofsHull by arithmetic *)
+Ltac ifs := repeat match goal with
+  | |- context [?a <? ?b] =>
+      first [rewrite (proj2 (Nat.ltb_lt a b)) by lia | rewrite (proj2 (Nat.ltb_ge a b)) by lia]
+  | |- context [?a =? ?b] =>
+      first [rewrite (Nat.eqb_refl a) | rewrite (proj2 (Nat.eqb_eq a b)) by lia | rewrite (proj2 (Nat.eqb_neq a b)) by lia]
+  end.
+Ltac ifs_in H := repeat match type of H with
+  | context [?a <? ?b] =>
+      first [rewrite (proj2 (Nat.ltb_lt a b)) in H by lia | rewrite (proj2 (Nat.ltb_ge a b)) in H by lia]
+  | context [?a =? ?b] =>
+      first [rewrite (Nat.eqb_refl a) in H | rewrite (proj2 (Nat.eqb_eq a b)) in H by lia | rewrite (proj2 (Nat.eqb_neq a b)) in H by lia]
+  end.
+Ltac geo_close :=
+  first [ assumption | rewrite orient_cyclic; assumption | rewrite orient_cyclic'; assumption ].
+
+(* --- 5b. create_single_face_between_edge_and_next keeps all faces counter-clockwise when the new triangle is --- *)
+Section CSF.
+Variable pts : list pnt.
+Variables (d : dcel) (e : nat).
+Hypothesis W : DW d.
+Hypothesis He : e < length (d_hedges d).
+Hypothesis Hface : e_face d e = 0.
+Hypothesis EC : EdgesCcw pts d.
+Hypothesis T : (0 < orient (vpos pts (e_origin d e)) (vpos pts (e_origin d (e_next d e)))
+                           (vpos pts (e_origin d (rev (e_next d e)))))%Z.
+Notation N := (length (d_hedges d)).
+Notation d1 := (fst (create_single_face_between_edge_and_next d e)).
+
+Lemma csf_far : e_origin d (rev (e_next d e)) <> e_origin d e.
+Proof.
+  intro E. rewrite E in T. destruct (orient_degenerate (vpos pts (e_origin d e)) (vpos pts (e_origin d (e_next d e))) (0, 0)%Z)
+    as (_ & D2 & _). rewrite D2 in T. lia.
+Qed.
+
+Lemma csf_DW' : DW d1.
+Proof. apply DW_PH. apply (PH.csf_DW d e (PH_DW d W) He Hface csf_far). Qed.
+
+Lemma csf_edges_ccw : EdgesCcw pts d1.
+Proof.
+  pose proof (PH_DW d W) as PW. pose proof csf_far as Far.
+  destruct (PH.csf_ctx d e PW He Hface Far)
+    as (_ & Hen & Henn & Hep & Hev & Hene & Hepe & Hnnn & Hnne & Hpn & _ & _ & HF & Hfen & Hfenn & Hfep).
+  pose proof (dw_prev_next d W e He) as PN.
+  intros x Hx Ix. rewrite (PH.csf_len d e PW He Hface Far) in Hx.
+  unfold inner in Ix. rewrite (PH.csf_face d e PW He Hface Far) in Ix.
+  unfold tri_orient. rewrite (PH.csf_next d e PW He Hface Far x), (PH.csf_prev d e PW He Hface Far x).
+  destruct (Nat.eq_dec x e) as [->|Ne].
+  - ifs. rewrite !(PH.csf_org d e PW He Hface Far). ifs. geo_close.
+  - destruct (Nat.eq_dec x (e_next d e)) as [->|Nen].
+    + ifs. rewrite PN. rewrite !(PH.csf_org d e PW He Hface Far). ifs. geo_close.
+    + destruct (lt_dec x N) as [Hlt|Hge].
+      * ifs_in Ix.
+        assert (x <> e_prev d e) by (intro E; rewrite E in Ix; congruence).
+        assert (x <> e_next d (e_next d e)) by (intro E; rewrite E in Ix; congruence).
+        pose proof (dw_next_lt d W x Hlt). pose proof (dw_prev_lt d W x Hlt).
+        ifs. rewrite !(PH.csf_org d e PW He Hface Far). ifs. apply (EC x Hlt Ix).
+      * assert (Cx : x = N \/ x = N + 1) by lia. destruct Cx as [->| ->].
+        -- ifs. rewrite !(PH.csf_org d e PW He Hface Far). ifs. geo_close.
+        -- ifs_in Ix. congruence.
+Qed.
+End CSF.
+
+(* --- 5c. create_new_face_adjacent_to_edge: the new triangle (from, to, q) is counter-clockwise when q is left of e --- *)
+Section CNF.
+Variable pts : list pnt.
+Variables (d : dcel) (e : nat) (v : vdata).
+Hypothesis W : DW d.
+Hypothesis He : e < length (d_hedges d).
+Hypothesis Hface : e_face d e = 0.
+Hypothesis EC : EdgesCcw pts d.
+Hypothesis T : (0 < orient (vpos pts (e_origin d e)) (vpos pts (e_origin d (rev e))) (vpos pts (length (d_verts d))))%Z.
+Notation N := (length (d_hedges d)).
+Notation d1 := (fst (create_new_face_adjacent_to_edge d e v)).
+
+Lemma cnf_DW' : DW d1.
+Proof. apply DW_PH. apply (PH.cnf_DW d e v (PH_DW d W) He Hface). Qed.
+
+Lemma cnf_edges_ccw : EdgesCcw pts d1.
+Proof.
+  pose proof (PH_DW d W) as PW.
+  destruct (PH.cnf_ctx d e PW He Hface) as (_ & Hen & Hep & Hev & Hene & Hepe & _ & _ & HF & Hfen & Hfep & Hre).
+  intros x Hx Ix. rewrite (PH.cnf_len d e v PW He Hface) in Hx.
+  unfold inner in Ix. rewrite (PH.cnf_face d e v PW He Hface) in Ix.
+  unfold tri_orient. rewrite (PH.cnf_next d e v PW He Hface x), (PH.cnf_prev d e v PW He Hface x).
+  destruct (Nat.eq_dec x e) as [->|Ne].
+  - ifs. rewrite !(PH.cnf_org d e v PW He Hface). ifs. geo_close.
+  - destruct (lt_dec x N) as [Hlt|Hge].
+    + ifs_in Ix.
+      assert (x <> e_prev d e) by (intro E; rewrite E in Ix; congruence).
+      assert (x <> e_next d e) by (intro E; rewrite E in Ix; congruence).
+      pose proof (dw_next_lt d W x Hlt). pose proof (dw_prev_lt d W x Hlt).
+      ifs. rewrite !(PH.cnf_org d e v PW He Hface). ifs. apply (EC x Hlt Ix).
+    + assert (Cx : x = N \/ x = N + 1 \/ x = N + 2 \/ x = N + 3) by lia. destruct Cx as [->|[->|[->| ->]]].
+      * ifs. rewrite !(PH.cnf_org d e v PW He Hface). ifs. geo_close.
+      * ifs_in Ix. congruence.
+      * ifs. rewrite !(PH.cnf_org d e v PW He Hface). ifs. geo_close.
+      * ifs_in Ix. congruence.
+Qed.
+End CNF.
+
+(* --- 5d. what the two hull walks may change --- *)
+Definition Grow (d d' : dcel) : Prop :=
+  length (d_verts d') = length (d_verts d)
+  /\ (forall v, let a := nth v (d_verts d') dflt_v in let b0 := nth v (d_verts d) dflt_v in
+                v_x a = v_x b0 /\ v_y a = v_y b0 /\ v_data a = v_data b0)
+  /\ (exists k, d_flags d' = d_flags d ++ repeat false k /\ length (d_faces d') = length (d_faces d) + k)
+  /\ length (d_hedges d) <= length (d_hedges d')
+  /\ (forall x, x < length (d_hedges d) -> e_face d x <> 0 -> e_face d' x <> 0).
+
+(* outer half-edges leaving the vertex nv stay outer half-edges leaving nv *)
+Definition Keep (nv : nat) (d d' : dcel) : Prop :=
+  forall y, y < length (d_hedges d) -> e_face d y = 0 -> e_origin d y = nv -> e_face d' y = 0 /\ e_origin d' y = nv.
+
+Lemma Grow_refl : forall d, Grow d d.
+Proof.
+  intros d. unfold Grow. split; [reflexivity|]. split; [intros v; cbv zeta; auto|].
+  split; [exists 0; cbn [repeat]; rewrite app_nil_r; split; [reflexivity|lia]|]. split; [lia|auto].
+Qed.
+
+Lemma Grow_trans : forall d1 d2 d3, Grow d1 d2 -> Grow d2 d3 -> Grow d1 d3.
+Proof.
+  intros d1 d2 d3 (A1 & A2 & (k1 & A3 & A4) & A5 & A6) (B1 & B2 & (k2 & B3 & B4) & B5 & B6).
+  unfold Grow. split; [congruence|]. split.
+  { intros v. cbv zeta. destruct (A2 v) as (X1 & X2 & X3). destruct (B2 v) as (Y1 & Y2 & Y3). cbv zeta in *.
+    repeat split; congruence. }
+  split.
+  { exists (k1 + k2). rewrite B3, A3, repeat_app, app_assoc. split; [reflexivity|lia]. }
+  split; [lia|]. intros x Hx Ix. apply B6; [lia|]. apply A6; assumption.
+Qed.
+
+Lemma Keep_refl : forall nv d, Keep nv d d.
+Proof. intros nv d y _ F O. auto. Qed.
+
+Lemma Keep_trans : forall nv d1 d2 d3, length (d_hedges d1) <= length (d_hedges d2) ->
+  Keep nv d1 d2 -> Keep nv d2 d3 -> Keep nv d1 d3.
+Proof.
+  intros nv d1 d2 d3 L A B y Hy F O. destruct (A y Hy F O) as (F2 & O2). apply B; [lia|exact F2|exact O2].
+Qed.
+
+Lemma Grow_of_StepRel : forall d d', StepRel d d' -> Grow d d'.
+Proof.
+  intros d d' (R1 & R2 & R3 & R4 & R5 & R6 & _). unfold Grow.
+  split; [exact R1|]. split; [exact R5|].
+  split; [exists 0; cbn [repeat]; rewrite app_nil_r; split; [exact R4|lia]|].
+  split; [lia|]. intros x _ Ix E. apply Ix. apply R6. exact E.
+Qed.
+
+Lemma Keep_of_legalize : forall nv d d', StepRel d d' -> HullKeep d d' -> Keep nv d d'.
+Proof.
+  intros nv d d' (_ & _ & _ & _ & _ & R6 & _) (K1 & _) y Hy F O. split; [apply R6; exact F|].
+  unfold e_origin. rewrite (K1 y Hy F). exact O.
+Qed.
+
+Section CSFFrame.
+Variable pts : list pnt.
+Variables (d : dcel) (e : nat).
+Hypothesis W : DW d.
+Hypothesis He : e < length (d_hedges d).
+Hypothesis Hface : e_face d e = 0.
+Hypothesis T : (0 < orient (vpos pts (e_origin d e)) (vpos pts (e_origin d (e_next d e)))
+                           (vpos pts (e_origin d (rev (e_next d e)))))%Z.
+Notation N := (length (d_hedges d)).
+Notation d1 := (fst (create_single_face_between_edge_and_next d e)).
+
+Lemma csf_grow : Grow d d1.
+Proof.
+  pose proof (PH_DW d W) as PW. pose proof (csf_far pts d e He Hface T) as Far.
+  destruct (PH.csf_ctx d e PW He Hface Far) as (_ & _ & _ & _ & _ & _ & _ & _ & _ & _ & _ & _ & _ & Hfen & _).
+  unfold Grow. rewrite (PH.csf_verts d e PW He Hface Far), (PH.csf_flags d e PW He Hface Far),
+    (PH.csf_faces d e PW He Hface Far), (PH.csf_len d e PW He Hface Far).
+  split; [reflexivity|]. split; [intros v; cbv zeta; auto|].
+  split; [exists 1; split; [reflexivity|rewrite app_length, PH.set_nth_length; reflexivity]|].
+  split; [lia|]. intros x Hx Ix. rewrite (PH.csf_face d e PW He Hface Far).
+  assert (x <> e) by (intro E; rewrite E in Ix; congruence).
+  assert (x <> e_next d e) by (intro E; rewrite E in Ix; congruence).
+  ifs. exact Ix.
+Qed.
+
+Lemma csf_keep : forall nv, e_origin d e <> nv -> e_origin d (e_next d e) <> nv -> Keep nv d d1.
+Proof.
+  intros nv N1 N2 y Hy F O.
+  pose proof (PH_DW d W) as PW. pose proof (csf_far pts d e He Hface T) as Far.
+  assert (y <> e) by (intro E; rewrite E in O; congruence).
+  assert (y <> e_next d e) by (intro E; rewrite E in O; congruence).
+  rewrite (PH.csf_face d e PW He Hface Far), (PH.csf_org d e PW He Hface Far). ifs. auto.
+Qed.
+
+Lemma csf_new_edge : snd (create_single_face_between_edge_and_next d e) = N + 1 /\
+  length (d_hedges d1) = N + 2 /\ rev (N + 1) = N /\
+  e_face d1 (N + 1) = 0 /\ e_origin d1 (N + 1) = e_origin d e /\ e_origin d1 N = e_origin d (rev (e_next d e)).
+Proof.
+  pose proof (PH_DW d W) as PW. pose proof (csf_far pts d e He Hface T) as Far.
+  split; [apply (PH.csf_result d e PW He Hface Far)|].
+  split; [apply (PH.csf_len d e PW He Hface Far)|].
+  split.
+  { pose proof (dw_even d W) as Ev. replace (N + 1) with (2 * length (d_flags d) + 1) by lia.
+    rewrite rev_odd. lia. }
+  rewrite (PH.csf_face d e PW He Hface Far), !(PH.csf_org d e PW He Hface Far). ifs. auto.
+Qed.
+End CSFFrame.
+
+(* --- 5e. the two walks along the hull --- *)
+Lemma hull_walk_ccw_inv : forall pts fuel nv k d cur d',
+  DW d -> EdgesCcw pts d -> cur < length (d_hedges d) -> e_face d cur = 0 -> e_origin d (rev cur) = nv ->
+  hull_walk_ccw pts fuel k d cur (vpos pts nv) = Some d' ->
+  DW d' /\ EdgesCcw pts d' /\ Grow d d' /\ Keep nv d d'.
+Proof.
+  intros pts fuel nv k. induction k as [|k IH]; intros d cur d' W EC Hc Fc Oc Run.
+  - cbn [hull_walk_ccw] in Run. discriminate.
+  - cbn [hull_walk_ccw] in Run.
+    destruct (left_of pts d (e_prev d cur) (vpos pts nv)) eqn:L.
+    + set (prev := e_prev d cur) in *.
+      assert (Hp : prev < length (d_hedges d)) by (apply dw_prev_lt; assumption).
+      assert (Fp : e_face d prev = 0) by (unfold prev; rewrite dw_face_prev by assumption; exact Fc).
+      assert (Np : e_next d prev = cur) by (apply dw_next_prev; assumption).
+      pose proof (dw_org_next d W prev Hp) as On. rewrite Np in On.
+      unfold left_of in L. apply Z.ltb_lt in L. unfold e_to, e_rev in L. rewrite <- On in L.
+      assert (T : (0 < orient (vpos pts (e_origin d prev)) (vpos pts (e_origin d (e_next d prev)))
+                              (vpos pts (e_origin d (rev (e_next d prev)))))%Z).
+      { rewrite Np, Oc. exact L. }
+      assert (N1 : e_origin d prev <> nv).
+      { intro E. rewrite E in L.
+        destruct (orient_degenerate (vpos pts nv) (vpos pts (e_origin d cur)) (0, 0)%Z) as (_ & D2 & _). lia. }
+      assert (N2 : e_origin d (e_next d prev) <> nv).
+      { rewrite Np, <- Oc. apply dw_org_neq; assumption. }
+      pose proof (csf_DW' pts d prev W Hp Fp T) as W1.
+      pose proof (csf_edges_ccw pts d prev W Hp Fp EC T) as EC1.
+      pose proof (csf_grow pts d prev W Hp Fp T) as G1.
+      pose proof (csf_keep pts d prev W Hp Fp T nv N1 N2) as K1.
+      destruct (csf_new_edge pts d prev W Hp Fp T) as (Sn & L1 & Rv & F1 & _ & O1).
+      destruct (create_single_face_between_edge_and_next d prev) as [d1 new_edge] eqn:E1.
+      cbn [fst snd] in *. subst new_edge.
+      destruct (legalize_edge pts fuel d1 prev false) as [[d2 b]|] eqn:E2; [|discriminate].
+      assert (Hp1 : prev < length (d_hedges d1)) by lia.
+      destruct (legalize_edge_hull pts fuel d1 prev false d2 b W1 EC1 Hp1 E2) as (W2 & EC2 & R12 & K12).
+      pose proof R12 as (_ & _ & L2 & _ & _ & F02 & _).
+      assert (Hn2 : length (d_hedges d) + 1 < length (d_hedges d2)) by lia.
+      assert (Fn2 : e_face d2 (length (d_hedges d) + 1) = 0) by (apply F02; exact F1).
+      assert (On2 : e_origin d2 (rev (length (d_hedges d) + 1)) = nv).
+      { rewrite Rv. destruct K12 as (_ & K2). rewrite K2; [|lia|rewrite <- Rv, rev_rev; exact F1].
+        rewrite O1, Np. exact Oc. }
+      destruct (IH d2 _ d' W2 EC2 Hn2 Fn2 On2 Run) as (W' & EC' & G' & K').
+      split; [exact W'|]. split; [exact EC'|]. split.
+      * apply (Grow_trans d d1 d' G1). apply (Grow_trans d1 d2 d' (Grow_of_StepRel d1 d2 R12) G').
+      * apply (Keep_trans nv d d1 d'); [lia|exact K1|].
+        apply (Keep_trans nv d1 d2 d'); [lia|apply Keep_of_legalize; assumption|exact K'].
+    + injection Run as <-. split; [exact W|]. split; [exact EC|]. split; [apply Grow_refl|apply Keep_refl].
+Qed.
+
+Lemma hull_walk_cw_inv : forall pts fuel nv k d cur d',
+  DW d -> EdgesCcw pts d -> cur < length (d_hedges d) -> e_face d cur = 0 -> e_origin d cur = nv ->
+  hull_walk_cw pts fuel k d cur (vpos pts nv) = Some d' ->
+  DW d' /\ EdgesCcw pts d' /\ Grow d d'.
+Proof.
+  intros pts fuel nv k. induction k as [|k IH]; intros d cur d' W EC Hc Fc Oc Run.
+  - cbn [hull_walk_cw] in Run. discriminate.
+  - cbn [hull_walk_cw] in Run.
+    destruct (left_of pts d (e_next d cur) (vpos pts nv)) eqn:L.
+    + set (nxt := e_next d cur) in *.
+      assert (Hn : nxt < length (d_hedges d)) by (apply dw_next_lt; assumption).
+      unfold left_of in L. apply Z.ltb_lt in L. unfold e_to, e_rev in L.
+      assert (T : (0 < orient (vpos pts (e_origin d cur)) (vpos pts (e_origin d (e_next d cur)))
+                              (vpos pts (e_origin d (rev (e_next d cur)))))%Z).
+      { fold nxt. rewrite Oc. rewrite orient_cyclic'. exact L. }
+      pose proof (csf_DW' pts d cur W Hc Fc T) as W1.
+      pose proof (csf_edges_ccw pts d cur W Hc Fc EC T) as EC1.
+      pose proof (csf_grow pts d cur W Hc Fc T) as G1.
+      destruct (csf_new_edge pts d cur W Hc Fc T) as (Sn & L1 & Rv & F1 & O1 & _).
+      destruct (create_single_face_between_edge_and_next d cur) as [d1 new_edge] eqn:E1.
+      cbn [fst snd] in *. subst new_edge.
+      destruct (legalize_edge pts fuel d1 nxt false) as [[d2 b]|] eqn:E2; [|discriminate].
+      assert (Hn1 : nxt < length (d_hedges d1)) by lia.
+      destruct (legalize_edge_hull pts fuel d1 nxt false d2 b W1 EC1 Hn1 E2) as (W2 & EC2 & R12 & K12).
+      pose proof R12 as (_ & _ & L2 & _ & _ & F02 & _).
+      assert (Hn2 : length (d_hedges d) + 1 < length (d_hedges d2)) by lia.
+      assert (Fn2 : e_face d2 (length (d_hedges d) + 1) = 0) by (apply F02; exact F1).
+      assert (On2 : e_origin d2 (length (d_hedges d) + 1) = nv).
+      { destruct K12 as (K1 & _). unfold e_origin. rewrite K1; [|lia|exact F1].
+        fold (e_origin d1 (length (d_hedges d) + 1)). rewrite O1. exact Oc. }
+      destruct (IH d2 _ d' W2 EC2 Hn2 Fn2 On2 Run) as (W' & EC' & G').
+      split; [exact W'|]. split; [exact EC'|].
+      apply (Grow_trans d d1 d' G1). apply (Grow_trans d1 d2 d' (Grow_of_StepRel d1 d2 R12) G').
+    + injection Run as <-. split; [exact W|]. split; [exact EC|apply Grow_refl].
+Qed.
+
+(* --- 5f. the first step and the whole insertion --- *)
+Lemma cnf_facts : forall d e v, DW d -> e < length (d_hedges d) -> e_face d e = 0 ->
+  let d1 := fst (create_new_face_adjacent_to_edge d e v) in
+  let N := length (d_hedges d) in
+  length (d_hedges d1) = N + 4 /\
+  d_verts d1 = d_verts d ++ [mkv (vd_x v) (vd_y v) (vd_d v) (Some (N + 2))] /\
+  length (d_faces d1) = length (d_faces d) + 1 /\
+  d_flags d1 = d_flags d ++ [false; false] /\
+  e_rev (e_prev d1 e) = N + 3 /\ e_rev (e_next d1 e) = N + 1 /\ rev (N + 3) = N + 2 /\
+  e_face d1 (N + 1) = 0 /\ e_face d1 (N + 3) = 0 /\
+  e_origin d1 (N + 1) = length (d_verts d) /\ e_origin d1 (N + 2) = length (d_verts d) /\
+  (forall x, x < N -> e_face d x <> 0 -> e_face d1 x <> 0).
+Proof.
+  intros d e v W He Hface. cbv zeta. pose proof (PH_DW d W) as PW.
+  pose proof (dw_even d W) as Ev.
+  split; [apply (PH.cnf_len d e v PW He Hface)|].
+  split; [apply (PH.cnf_verts d e v PW He Hface)|].
+  split; [rewrite (PH.cnf_faces d e v PW He Hface), PH.set_nth_length, app_length; reflexivity|].
+  split; [apply (PH.cnf_flags d e v PW He Hface)|].
+  split.
+  { rewrite (PH.cnf_prev d e v PW He Hface). ifs. unfold e_rev.
+    replace (length (d_hedges d) + 2) with (2 * (length (d_flags d) + 1)) by lia. rewrite rev_even. lia. }
+  split.
+  { rewrite (PH.cnf_next d e v PW He Hface). ifs. unfold e_rev.
+    replace (length (d_hedges d)) with (2 * length (d_flags d)) by lia. rewrite rev_even. reflexivity. }
+  split.
+  { replace (length (d_hedges d) + 3) with (2 * (length (d_flags d) + 1) + 1) by lia. rewrite rev_odd. lia. }
+  rewrite !(PH.cnf_face d e v PW He Hface), !(PH.cnf_org d e v PW He Hface). ifs.
+  split; [reflexivity|]. split; [reflexivity|]. split; [reflexivity|]. split; [reflexivity|].
+  intros x Hx Ix. rewrite (PH.cnf_face d e v PW He Hface).
+  assert (x <> e) by (intro E; rewrite E in Ix; congruence). ifs. exact Ix.
+Qed.
+
+Theorem insert_outside_invariant : forall pts fuel d e v d',
+  DWf d -> FacesCcw (obs_of_dcel d) pts -> e < length (d_hedges d) -> outer d e ->
+  (* the new position q = vpos pts (num_vertices d) lies strictly to the left of the outer half-edge e *)
+  left_of pts d e (vpos pts (Raw.num_vertices d)) = true ->
+  insert_2d pts fuel d (IOutside e) v = Some d' ->
+     DWf d' /\ FacesCcw (obs_of_dcel d') pts
+  /\ Raw.num_vertices d' = S (Raw.num_vertices d)
+  /\ (exists k, Raw.num_undirected_edges d' = Raw.num_undirected_edges d + 2 + k /\
+                Raw.num_faces d' = Raw.num_faces d + 1 + k /\
+                d_flags d' = d_flags d ++ repeat false (2 + k))
+  /\ (forall u, u < Raw.num_vertices d -> let a := nth u (d_verts d') dflt_v in let b := nth u (d_verts d) dflt_v in
+                v_x a = v_x b /\ v_y a = v_y b /\ v_data a = v_data b)
+  /\ (let a := nth (Raw.num_vertices d) (d_verts d') dflt_v in v_x a = vd_x v /\ v_y a = vd_y v /\ v_data a = vd_d v)
+  /\ (forall x, x < length (d_hedges d) -> e_face d x <> 0 -> e_face d' x <> 0).
+Proof.
+  intros pts fuel d e v d' Wf FC He Oe L Run.
+  pose proof Wf as W. apply DWf_DW in W. unfold outer in Oe.
+  pose proof (faces_ccw_edges pts d W FC) as EC.
+  unfold left_of in L. apply Z.ltb_lt in L. unfold e_to, e_rev, Raw.num_vertices in L.
+  pose proof (cnf_DW' d e v W He Oe) as W1.
+  pose proof (cnf_edges_ccw pts d e v W He Oe EC L) as EC1.
+  pose proof (cnf_facts d e v W He Oe) as Fx. cbv zeta in Fx.
+  unfold insert_2d, insert_outside in Run.
+  destruct (create_new_face_adjacent_to_edge d e v) as [d1 h] eqn:E1. cbn [fst snd] in *.
+  destruct Fx as (L1 & V1 & NF1 & Fl1 & Cs & Cws & Rv3 & F1 & F3 & O1 & O2 & In1).
+  rewrite Cs, Cws in Run.
+  set (N := length (d_hedges d)) in *. set (nv := length (d_verts d)) in *.
+  destruct (legalize_edge pts fuel d1 e false) as [[d2 b]|] eqn:E2; [|discriminate].
+  assert (He1 : e < length (d_hedges d1)) by lia.
+  destruct (legalize_edge_hull pts fuel d1 e false d2 b W1 EC1 He1 E2) as (W2 & EC2 & R12 & K12).
+  pose proof R12 as (_ & _ & L2 & _ & _ & F02 & _).
+  destruct (hull_walk_ccw pts fuel fuel d2 (N + 3) (vpos pts (Raw.num_vertices d))) as [d3|] eqn:E3; [|discriminate].
+  assert (H3 : N + 3 < length (d_hedges d2)) by lia.
+  assert (Fc3 : e_face d2 (N + 3) = 0) by (apply F02; exact F3).
+  assert (Oc3 : e_origin d2 (rev (N + 3)) = nv).
+  { rewrite Rv3. destruct K12 as (_ & K2). rewrite K2; [exact O2|lia|].
+    rewrite <- Rv3, rev_rev. exact F3. }
+  destruct (hull_walk_ccw_inv pts fuel nv fuel d2 (N + 3) d3 W2 EC2 H3 Fc3 Oc3 E3) as (W3 & EC3 & G23 & K23).
+  assert (H1 : N + 1 < length (d_hedges d2)) by lia.
+  assert (Fc1 : e_face d2 (N + 1) = 0) by (apply F02; exact F1).
+  assert (Oc1 : e_origin d2 (N + 1) = nv).
+  { destruct K12 as (K1 & _). unfold e_origin. rewrite K1; [exact O1|lia|exact F1]. }
+  destruct (K23 (N + 1) H1 Fc1 Oc1) as (Fc1' & Oc1').
+  pose proof G23 as (_ & _ & _ & L3 & _).
+  assert (H1' : N + 1 < length (d_hedges d3)) by lia.
+  destruct (hull_walk_cw_inv pts fuel nv fuel d3 (N + 1) d' W3 EC3 H1' Fc1' Oc1' Run) as (W' & EC' & G3').
+  pose proof (Grow_trans d1 d2 d' (Grow_of_StepRel d1 d2 R12) (Grow_trans d2 d3 d' G23 G3'))
+    as (A1 & A2 & (k & A3 & A4) & A5 & A6).
+  split; [apply DWf_DW; exact W'|]. split; [apply edges_ccw_faces; assumption|].
+  split.
+  { unfold Raw.num_vertices. rewrite A1, V1, app_length. cbn [length]. fold nv. lia. }
+  split.
+  { exists k. unfold Raw.num_undirected_edges, Raw.num_faces. rewrite A3, A4, NF1, Fl1.
+    rewrite !app_length, repeat_length. cbn [length]. split; [lia|]. split; [lia|].
+    rewrite <- app_assoc. reflexivity. }
+  split.
+  { intros u Hu. cbv zeta. destruct (A2 u) as (X1 & X2 & X3). cbv zeta in X1, X2, X3.
+    rewrite V1, app_nth1 in X1, X2, X3 by exact Hu. auto. }
+  split.
+  { cbv zeta. destruct (A2 nv) as (X1 & X2 & X3). cbv zeta in X1, X2, X3. unfold Raw.num_vertices. fold nv.
+    rewrite V1, app_nth2 in X1, X2, X3 by (fold nv; lia). fold nv in X1, X2, X3.
+    rewrite Nat.sub_diag in X1, X2, X3. cbn [nth v_x v_y v_data] in X1, X2, X3. auto. }
+  intros x Hx Ix. apply A6; [lia|]. apply In1; assumption.
+Qed.
+
+(* the first step on its own: the new face next to e, then legalization of e *)
+Lemma insert_outside_first_step : forall pts fuel d e v d2 b,
+  DWf d -> FacesCcw (obs_of_dcel d) pts -> e < length (d_hedges d) -> outer d e ->
+  left_of pts d e (vpos pts (Raw.num_vertices d)) = true ->
+  legalize_edge pts fuel (fst (create_new_face_adjacent_to_edge d e v)) e false = Some (d2, b) ->
+  DWf d2 /\ FacesCcw (obs_of_dcel d2) pts.
+Proof.
+  intros pts fuel d e v d2 b Wf FC He Oe L Run.
+  pose proof Wf as W. apply DWf_DW in W. unfold outer in Oe.
+  pose proof (faces_ccw_edges pts d W FC) as EC.
+  unfold left_of in L. apply Z.ltb_lt in L. unfold e_to, e_rev, Raw.num_vertices in L.
+  pose proof (cnf_DW' d e v W He Oe) as W1.
+  pose proof (cnf_edges_ccw pts d e v W He Oe EC L) as EC1.
+  destruct (cnf_facts d e v W He Oe) as (L1 & _).
+  assert (He1 : e < length (d_hedges (fst (create_new_face_adjacent_to_edge d e v)))) by lia.
+  destruct (legalize_edge_hull pts fuel _ e false d2 b W1 EC1 He1 Run) as (W2 & EC2 & _).
+  split; [apply DWf_DW; exact W2|apply edges_ccw_faces; assumption].
+Qed.
+
+(* --- a concrete instance: the hypotheses of insert_outside_invariant are satisfiable, both walks do work --- *)
+Module ExIns.
+Definition pts5 : list pnt := [(0, 0); (4, 0); (2, 1); (2, -1); (2, -5)]%Z.
+
+Example ex_hyps : DWf Ex.d4 /\ faces_ccw (obs_of_dcel Ex.d4) pts5 = true /\ 7 < length (d_hedges Ex.d4) /\
+  e_face Ex.d4 7 = 0 /\ left_of pts5 Ex.d4 7 (vpos pts5 (Raw.num_vertices Ex.d4)) = true.
+Proof. split; [exact Ex.ex_wf|]. vm_compute. repeat split; auto; lia. Qed.
+
+Example ex_run :
+  option_map (fun d => (Raw.num_vertices d, Raw.num_undirected_edges d, Raw.num_faces d, faces_ccw (obs_of_dcel d) pts5))
+             (insert_2d pts5 20 Ex.d4 (IOutside 7) (mkvd 0 0 14)) = Some (5, 8, 5, true).
+Proof. vm_compute. reflexivity. Qed.
+End ExIns.
+
 Print Assumptions legalize_vertex_invariant.
 Print Assumptions insert_on_face_invariant.
 Print Assumptions insert_on_edge_invariant.
@@ -803,3 +1319,4 @@ Print Assumptions insert_on_edge_free_invariant.
 Print Assumptions insert_on_edge_constraint_invariant.
 Print Assumptions insert_on_edge_hull_invariant.
 Print Assumptions insert_on_vertex_invariant.
+Print Assumptions insert_outside_invariant.
